@@ -61,4 +61,22 @@ CHECKS = {
         "expect_probes": ["team_differential_runs", "refine_all", "divisions"],
         "assumptions": COMMON_ASSUME + ["instruction-level races need the TSan free-running mode (not part of this check yet)"],
     },
+    "C06": {
+        "jobs": [{"variant": "asan_cm1_dm0", "workload": "wc", "focus": "C06", "share": 0.5, "chunk": 8},
+                 {"variant": "asan_cm0_dm0", "workload": "wc", "focus": "C06", "share": 0.25, "chunk": 8},
+                 {"variant": "asan_cm2_dm0", "workload": "wc", "focus": "C06", "share": 0.25, "chunk": 8}],
+        "budget": {"quick": 75, "thorough": 1200},
+        "rule": "one case = one generated tissue of 2-5 cells (touching / overlapping / nested layouts; placed at the origin, 10-1000 radii away, straddling the origin, or aligned to voxel multiples of the contact grid; cut-off/l_min ratio 0.1-2, unequal adhesion/repulsion cut-offs) run for 2-20 real iterations; at every contact phase the forces, couplings and node positions it produced are compared with the code's own narrow phase applied to ALL node x triangle pairs of different cells on deep copies, in the grid's iteration order; distinct = distinct event-log hash; non-trivial = a contact phase that produced forces or couplings",
+        "expect_probes": ["c06_bruteforce_phases", "c06_phases_with_forces", "c06_phases_with_couplings"],
+        "assumptions": COMMON_ASSUME + ["exact comparison on a team of one, and on larger teams when no coupling decision is order dependent (counted in probe c06_exact_skipped_order_dependent)", "the narrow-phase rules are the code's own public resolve_contact/apply_contact_forces: this check isolates the broad phase (AABB padding, voxel registration, per-node voxel lookup)"],
+    },
+    "C07": {
+        "jobs": [{"variant": "asan_cm1_dm0", "workload": "wc", "focus": "C07", "share": 0.5, "chunk": 8},
+                 {"variant": "asan_cm0_dm0", "workload": "wc", "focus": "C07", "share": 0.25, "chunk": 8},
+                 {"variant": "asan_cm2_dm0", "workload": "wc", "focus": "C07", "share": 0.25, "chunk": 8}],
+        "budget": {"quick": 75, "thorough": 1200},
+        "rule": "same tissues as C06, all cell-type combinations; per contact phase: net contact force zero, every node with a contact force has an element of another cell within the cut-off by the harness' own closest-point geometry, couplings join nodes of different cells closer than the adhesion cut-off; for every node on the forbidden side of exactly one other cell (ray-parity test) the code's narrow phase is run on the single pair (node, closest triangle): pair reciprocity, restoring direction, reaction direction, existence of repulsion when the code's own gates admit the pair; distinct = distinct event-log hash; non-trivial = a contact phase that produced forces or couplings",
+        "expect_probes": ["c07_pairs_checked", "c07_restoring_checked", "c07_couplings_checked", "contact_phases_with_forces"],
+        "assumptions": COMMON_ASSUME + ["the atomicity of concurrent force accumulation is a TSan matter, not reachable by the serialising scheduler"],
+    },
 }
